@@ -543,17 +543,67 @@ def sympy_reference(e, x, y):
 # ----------------------------------------------------------------------------- implementation
 
 
-def impl_eval(e, X, Y):
-    """Evaluate the expression with porepy's forward-mode AdArray. Exceptions propagate."""
+class OperandMutated(Exception):
+    """An operation changed one of its operands in place."""
+
+
+def _snap_sparse(M):
+    fmt = getattr(M, "format", type(M).__name__)
+    if fmt in ("csr", "csc", "bsr"):
+        parts = (M.data, M.indices, M.indptr)
+    elif fmt == "coo":
+        parts = (M.data, M.row, M.col)
+    elif fmt == "dia":
+        parts = (M.data, M.offsets)
+    else:
+        parts = (M.toarray(),)
+    return (type(M).__name__, fmt, tuple(M.shape)) + tuple((np.asarray(a).dtype.str, np.asarray(a).shape, np.ascontiguousarray(a).tobytes()) for a in parts)
+
+
+def snapshot(a):
+    """Bitwise fingerprint of an operand (AdArray, ndarray, sparse matrix, number)."""
+    if hasattr(a, "val") and hasattr(a, "jac"):
+        j = a.jac
+        return ("ad", a.val.dtype.str, a.val.shape, a.val.tobytes(), _snap_sparse(j) if hasattr(j, "toarray") else ("dense", np.asarray(j).tobytes()))
+    if isinstance(a, np.ndarray):
+        return ("nd", a.dtype.str, a.shape, a.tobytes())
+    if hasattr(a, "toarray"):
+        return _snap_sparse(a)
+    return ("num", type(a).__name__, repr(a))
+
+
+def impl_eval(e, X, Y, mutations=None):
+    """Evaluate the expression with porepy's forward-mode AdArray. Exceptions propagate.
+
+    Purity oracle: every operand of every operation / function application is
+    fingerprinted (value bytes; Jacobian class, format, shape, data / index arrays)
+    before the application and must be bitwise unchanged after it, otherwise
+    ``OperandMutated`` is raised (or, if a list ``mutations`` is passed, the finding is
+    appended to it and evaluation continues). A ``share`` node evaluates its sub-result once and
+    hands the very same object to every use."""
     import operator
 
     import scipy.sparse as sps
     from porepy.numerics.ad import functions as F
 
     binf = {"add": operator.add, "sub": operator.sub, "mul": operator.mul, "div": operator.truediv, "pow": operator.pow}
+    env = {}
 
     def size(a):
         return a.val.size
+
+    def note(msg):
+        if mutations is None:
+            raise OperandMutated(msg)
+        mutations.append(msg)
+
+    def apply(what, f, *operands):
+        before = [snapshot(o) for o in operands]
+        res = f(*operands)
+        for i, (o, b) in enumerate(zip(operands, before)):
+            if snapshot(o) != b:
+                note(f"{what}: operand {i} ({type(o).__name__}) was modified in place")
+        return res
 
     def ev(e, partner=None):
         t = e[0]
@@ -561,6 +611,15 @@ def impl_eval(e, X, Y):
             return X
         if t == "Y":
             return Y
+        if t == "W":
+            return env["W"]
+        if t == "share":
+            env["W"] = ev(e[1])
+            before = snapshot(env["W"])
+            res = ev(e[2])
+            if snapshot(env["W"]) != before:
+                note("shared sub-result was modified in place by a later operation")
+            return res
         if t == "c":
             return float(e[1])
         if t == "ci":
@@ -568,7 +627,7 @@ def impl_eval(e, X, Y):
         if t in ("af", "ai"):
             return const_array(t, partner)
         if t == "neg":
-            return -ev(e[1])
+            return apply("neg", operator.neg, ev(e[1]))
         if t in ("bin", "max"):
             l, r = (e[2], e[3]) if t == "bin" else (e[1], e[2])
             if l[0] in ("af", "ai"):
@@ -578,19 +637,20 @@ def impl_eval(e, X, Y):
                 a = ev(l)
                 b = ev(r, size(a) if hasattr(a, "val") else None)
             if t == "bin":
-                return binf[e[1]](a, b)
-            return F.maximum(a, b)
+                return apply(e[1], binf[e[1]], a, b)
+            return apply("maximum", F.maximum, a, b)
         if t == "mm":
             z = ev(e[4])
             D = dense_matrix(e[2], size(z))
             M = (sps.csr_matrix(D) if e[3] == "m" else sps.csr_array(D)).asformat(e[1])
-            return M @ z
+            return apply("matmul", operator.matmul, M, z)
         if t == "get":
             z = ev(e[2])
-            return z[get_key(e[1], size(z))]
+            k = get_key(e[1], size(z))
+            return apply("getitem", lambda zz, kk: zz[kk], z, k)
         if t == "fn":
             fname, args, kwargs = FUNCS[e[1]]
-            return getattr(F, fname)(*args, ev(e[2]), **kwargs)
+            return apply(fname, lambda zz: getattr(F, fname)(*args, zz, **kwargs), ev(e[2]))
         raise KeyError(t)
 
     return ev(e)
@@ -671,6 +731,48 @@ JOIN_REPS = [
     ["binL", "pow", ["c", 2.0]],
 ]
 JOIN_OPS = BINOPS + ("max",)
+
+# sub-results that are used twice in DAG programs: Jacobians in coo (bare variable, minus,
+# scalar multiple), csr (products, sums, functions, slicing, csr @), csc and bsr format
+DAG_REPS = [
+    None,
+    ["neg"],
+    ["binR", "mul", ["X"]],
+    ["binR", "add", ["Y"]],
+    ["binR", "mul", ["Y"]],
+    ["fn", "exp"],
+    ["fn", "sin"],
+    ["get", "st"],
+    ["get", "ix"],
+    ["mm", "csr", "sq", "m"],
+    ["mm", "csc", "sq", "m"],
+    ["mm", "bsr", "sq", "m"],
+    ["mm", "csr", "sq", "a"],
+    ["binR", "pow", ["c", 2.0]],
+    ["binL", "mul", ["c", -1.5]],
+    ["binR", "div", ["af"]],
+]
+DAG_OUTER = ("add", "sub", "mul", "div")
+
+
+def dag_programs(r1, r2s):
+    """w = r1(X); z = r2(Y); f = g(w, z); result = f o w and w o f."""
+    W = ["W"]
+    w = ["X"] if r1 is None else apply_letter(r1, ["X"])
+    out = []
+    for r2 in r2s:
+        z = ["Y"] if r2 is None else apply_letter(r2, ["Y"])
+        gs = [["bin", op, a, b] for op in BINOPS for a, b in ((W, z), (z, W))]
+        gs += [["max", W, z], ["max", z, W]]
+        if r2 is None:
+            # pairings of maximum (and arithmetic) with constants and with w itself
+            gs += [["max", W, ["af"]], ["max", ["af"], W], ["max", W, ["c", 0.5]], ["max", ["c", 0.5], W], ["max", W, ["ci", 1]], ["max", ["ci", 1], W], ["max", W, ["X"]], ["max", ["X"], W]]
+            gs += [["bin", "mul", W, W], ["bin", "mul", W, ["af"]], ["bin", "pow", W, ["c", 2.0]], ["fn", "exp", W], ["neg", W]]
+        for g in gs:
+            for o in DAG_OUTER:
+                out.append(["share", w, ["bin", o, g, W]])
+                out.append(["share", w, ["bin", o, W, g]])
+    return out
 
 
 def points(n: int, tier: str):
